@@ -323,6 +323,74 @@ func ruleD3(w *world.World, r *report.RuleResult) {
 	} else {
 		r.Fail(fname+"|current-database-updated", w.Pos(wr.Pos()), "the writer never records the database it switched to: every later command re-emits or omits the SELECT marker wrongly")
 	}
+	// A new store does not know which database the existing file ends in: the record must start at a
+	// value no request can carry, so that the first write of every process is preceded by a marker.
+	recvT := wr.Signature.Recv().Type()
+	for _, fn := range w.ModFns {
+		if world.PkgOf(fn) != world.PkgOf(wr) {
+			continue
+		}
+		for _, b := range fn.Blocks {
+			for _, in := range b.Instrs {
+				al, ok := in.(*ssa.Alloc)
+				if !ok || !types.Identical(al.Type(), recvT) {
+					continue
+				}
+				key := world.FuncName(fn) + "|database-record-starts-unknown"
+				var init ssa.Value
+				for _, ref := range *al.Referrers() {
+					if fa, ok := ref.(*ssa.FieldAddr); ok && world.FieldName(fa) == dbField {
+						for _, r2 := range *fa.Referrers() {
+							if st, ok := r2.(*ssa.Store); ok && st.Addr == ssa.Value(fa) {
+								init = st.Val
+							}
+						}
+					}
+				}
+				// alternative discipline: the reader records the database the file ends in while replaying
+				readerTracks := false
+				for _, g := range w.ModFns {
+					if g == wr || world.PkgOf(g) != world.PkgOf(wr) || g.Signature.Recv() == nil || !types.Identical(g.Signature.Recv().Type(), recvT) {
+						continue
+					}
+					parses := false
+					for _, c := range world.Calls(g) {
+						if f := c.Common().StaticCallee(); f != nil && (f.String() == "strconv.Atoi" || f.String() == "strconv.ParseInt") {
+							parses = true
+						}
+					}
+					if !parses {
+						continue
+					}
+					for _, gb := range g.Blocks {
+						for _, gi := range gb.Instrs {
+							if st, ok := gi.(*ssa.Store); ok {
+								if fa, ok := st.Addr.(*ssa.FieldAddr); ok && world.FieldName(fa) == dbField {
+									if _, isConst := st.Val.(*ssa.Const); !isConst {
+										readerTracks = true
+									}
+								}
+							}
+						}
+					}
+				}
+				if readerTracks {
+					r.OK(key, w.InstrPos(al), "the log reader records the database the file ends in while replaying it")
+					continue
+				}
+				if v, ok := world.ConstInt(init); init != nil && ok && v < 0 {
+					r.OK(key, w.InstrPos(al), "a new log store records no current database (negative), so its first write logs a SELECT marker whatever the file already ends in")
+				} else {
+					r.Fail(key, w.InstrPos(al), fmt.Sprintf("a new log store starts with %s = %s: after a restart the existing file may end in another database, but the first writes to that database are appended without a SELECT marker and the next replay applies them to whatever database the file ended in", dbField, func() string {
+						if init == nil {
+							return "0 (not initialised)"
+						}
+						return exprString(init)
+					}()))
+				}
+			}
+		}
+	}
 	// The writer omits the marker while the database equals the recorded one, so the record must
 	// describe the file: any other method of the log store that empties the file (Truncate on the
 	// handle) must, before it reports success, either write a marker for the recorded database at the
@@ -673,16 +741,20 @@ func ruleD7(w *world.World, r *report.RuleResult) {
 	key := world.FuncName(rs) + "|replay-database-from-marker"
 	var hc *ssa.Call
 	for _, c := range world.Calls(rs) {
-		if n, ok := fieldFuncCall(c); ok && n == "handleCommand" {
-			hc, _ = c.(*ssa.Call)
+		// the replay callback: a call through a func-typed field taking (database int, record []byte)
+		if _, ok := fieldFuncCall(c); ok && len(c.Common().Args) == 2 {
+			if b, isB := c.Common().Args[0].Type().Underlying().(*types.Basic); isB && b.Kind() == types.Int {
+				hc, _ = c.(*ssa.Call)
+			}
 		}
 	}
 	if hc == nil {
 		r.Fail(key, w.Pos(rs.Pos()), "the log restore never invokes the replay callback")
 		return
 	}
-	// database argument: phi/alloc fed by strconv.Atoi(cmd[1]) and the initial constant
+	// database argument: phi/alloc fed by a strconv parse of a token of the decoded record and the initial constant
 	fed := false
+	var parse *ssa.Call
 	seen := map[ssa.Value]bool{}
 	var walk func(v ssa.Value)
 	walk = func(v ssa.Value) {
@@ -697,8 +769,11 @@ func ruleD7(w *world.World, r *report.RuleResult) {
 			}
 		case *ssa.Extract:
 			if c, ok := x.Tuple.(*ssa.Call); ok {
-				if f := c.Call.StaticCallee(); f != nil && (f.String() == "strconv.Atoi" || f.String() == "strconv.ParseInt") {
-					fed = true
+				if f := c.Call.StaticCallee(); f != nil {
+					switch f.String() {
+					case "strconv.Atoi", "strconv.ParseInt", "strconv.ParseUint":
+						fed, parse = true, c
+					}
 				}
 			}
 		case *ssa.Convert:
@@ -718,6 +793,29 @@ func ruleD7(w *world.World, r *report.RuleResult) {
 		r.OK(key, w.InstrPos(hc), "replay callback receives the database parsed from the most recent SELECT marker")
 	} else {
 		r.Fail(key, w.InstrPos(hc), "the database passed to the replay callback is not derived from the SELECT marker in the log: every command is replayed into one database")
+	}
+	// writer/reader agreement on the marker's number: the log store formats its record of the current
+	// database (an int, -1 until the first write) in decimal; the reader must parse every such value
+	if parse != nil {
+		key := world.FuncName(rs) + "|marker-parse-accepts-writer-values"
+		f := parse.Call.StaticCallee().String()
+		bad := ""
+		switch f {
+		case "strconv.ParseUint":
+			bad = "strconv.ParseUint rejects negative numbers"
+		case "strconv.ParseInt":
+			if b, ok := world.ConstInt(parse.Call.Args[1]); !ok || b != 10 {
+				bad = "base is not 10"
+			}
+			if bs, ok := world.ConstInt(parse.Call.Args[2]); !ok || (bs != 0 && bs != 64) {
+				bad = "bit size is narrower than int"
+			}
+		}
+		if bad == "" {
+			r.OK(key, w.InstrPos(parse), "the marker is parsed as a signed decimal int (the inverse of the writer's strconv.Itoa of its int record)")
+		} else {
+			r.Fail(key, w.InstrPos(parse), "the SELECT marker is parsed with "+f+" ("+bad+") although the writer formats a signed int that is -1 until the first write of the process (the header written by a rewrite on a fresh log is SELECT -1): replay stops at such a marker with an error and every command after it is lost")
+		}
 	}
 }
 
